@@ -32,7 +32,7 @@ func main() {
 		hx.GenProbe(2000, len(os.Args) > 2 && os.Args[2] == "vm")
 		return
 	}
-	needDriver := map[string]bool{"c11": true, "c12": true, "c17": true, "c16": true}
+	needDriver := map[string]bool{"c11": true, "c12": true, "c17": true, "c16": true, "evalprobe": true, "evalone": true}
 	var d *hx.Driver
 	if needDriver[os.Args[1]] {
 		var err error
@@ -42,6 +42,18 @@ func main() {
 			os.Exit(3)
 		}
 		defer d.Close()
+	}
+	if os.Args[1] == "evalone" {
+		b, _ := os.ReadFile(os.Args[2])
+		c := hx.CompareEval(d, string(b), hx.RunOpts{})
+		fmt.Println("skipped:", c.Skipped, "agree:", c.Agree)
+		fmt.Println("real :", c.RealObs)
+		fmt.Println("model:", c.ModelObs, c.Model.Err)
+		return
+	}
+	if os.Args[1] == "evalprobe" {
+		hx.EvalProbe(d, 1500)
+		return
 	}
 	var rep *hx.Report
 	switch os.Args[1] {
